@@ -1210,7 +1210,6 @@ func reflectTag(tag, key string) string {
 	return ""
 }
 
-
 // modelType: the named type occurs in the type of Project, transitively through fields, elements and pointers.
 func (c *Ctx) modelType(t *types.Named) bool {
 	if c.modelTypes == nil {
@@ -1312,7 +1311,6 @@ func (c *Ctx) RENDERESC(rule string) []report.Obligation {
 	return out
 }
 
-
 // flowsOut: the value ends up in something a marshaller produces: stored, put into a map, returned, handed to a
 // call - not merely compared.
 func flowsOut(v ssa.Value, depth int) bool {
@@ -1366,4 +1364,410 @@ func flowsOut(v ssa.Value, depth int) bool {
 		}
 	}
 	return false
+}
+
+// ---------------------------------------------------------------------------
+// ERRMUST: once a call's error has been seen to be non-nil, the function fails.
+// From the non-nil edge of the test of an error, every return that can be
+// reached yields a non-nil error (the same error, a wrap of it, or another
+// error that is certainly non-nil): no path carries on as if the call had
+// succeeded - no `continue` into the next iteration that overwrites it, no
+// `return nil`, no replacement by a value that may be nil (ctx.Err()). The
+// places where the code deliberately goes on after a failure (an optional file,
+// a tolerated absence) are the justified instances of this rule.
+// ---------------------------------------------------------------------------
+
+// errCalls: module call sites whose last result is an error, with the Extract of that error.
+func errResultOf(call *ssa.Call) *ssa.Extract {
+	res := call.Call.Signature().Results()
+	if res.Len() < 2 || !isErrorType(res.At(res.Len()-1).Type()) {
+		return nil
+	}
+	for _, u := range *call.Referrers() {
+		if ex, ok := u.(*ssa.Extract); ok && ex.Index == res.Len()-1 {
+			return ex
+		}
+	}
+	return nil
+}
+
+func (c *Ctx) inPkgs(fn *ssa.Function, pkgs []string) bool {
+	id := c.P.FuncID(fn)
+	if strings.HasPrefix(id, "types.deriveDeepCopy") {
+		return false
+	}
+	for _, p := range pkgs {
+		if strings.HasPrefix(id, p) {
+			return true
+		}
+	}
+	return false
+}
+
+func (c *Ctx) ERRMUST(rule string, pkgs ...string) []report.Obligation {
+	var out []report.Obligation
+	n := 0
+	for _, fn := range c.P.Funcs {
+		if fn.Blocks == nil || !c.inPkgs(fn, pkgs) {
+			continue
+		}
+		sig := fn.Signature.Results()
+		if sig.Len() == 0 || !isErrorType(sig.At(sig.Len()-1).Type()) {
+			continue // the function cannot fail: what it does with an error is ERRDROP's business
+		}
+		fi := prog.Info(fn)
+		for _, b := range fn.Blocks {
+			iff, ok := b.Instrs[len(b.Instrs)-1].(*ssa.If)
+			if !ok {
+				continue
+			}
+			var ev ssa.Value
+			failSucc := 0
+			what := ""
+			if bo, ok := iff.Cond.(*ssa.BinOp); ok && (bo.Op == token.NEQ || bo.Op == token.EQL) {
+				if prog.IsNilConst(bo.Y) {
+					ev = bo.X
+				} else if prog.IsNilConst(bo.X) {
+					ev = bo.Y
+				}
+				if bo.Op == token.EQL {
+					failSucc = 1
+				}
+			} else {
+				// a kind predicate (errors.Is, os.IsNotExist, an IsXxx helper): on its `yes` edge the error is non-nil too
+				cond, neg := iff.Cond, false
+				if u, isU := cond.(*ssa.UnOp); isU && u.Op == token.NOT {
+					cond, neg = u.X, true
+				}
+				if pc, isCall := cond.(*ssa.Call); isCall {
+					if res := pc.Call.Signature().Results(); res.Len() == 1 {
+						if bt, okb := res.At(0).Type().Underlying().(*types.Basic); okb && bt.Kind() == types.Bool {
+							for _, a := range pc.Call.Args {
+								if isErrorType(a.Type()) && !prog.IsNilConst(a) && ev == nil {
+									ev = a
+								}
+							}
+							if cal := pc.Call.StaticCallee(); cal != nil {
+								what = " (recognised by " + calleeName(cal) + ")"
+							}
+							if neg {
+								failSucc = 1
+							}
+						}
+					}
+				}
+			}
+			if ev == nil || !isErrorType(ev.Type()) {
+				continue
+			}
+			// the error comes from a call (directly, or as the freshly assigned variable)
+			ex, isEx := ev.(*ssa.Extract)
+			var call *ssa.Call
+			if isEx {
+				call, _ = ex.Tuple.(*ssa.Call)
+			} else if cl, isCall := ev.(*ssa.Call); isCall {
+				call = cl
+			}
+			if call == nil {
+				continue
+			}
+			fail := b.Succs[failSucc]
+			n++
+			// returns reachable from the failing edge without passing the test again
+			var offending []string
+			atOnce := false // a success return that only the failing edge leads to, as opposed to going on with the work
+			for _, rb := range fn.Blocks {
+				ret, isRet := rb.Instrs[len(rb.Instrs)-1].(*ssa.Return)
+				if !isRet || !(rb == fail || fi.Reaches(fail, rb)) {
+					continue
+				}
+				rv := errRet(ret)
+				if c.certainlyError(rv, rb, ev, 0) {
+					continue
+				}
+				offending = append(offending, c.P.InstrPos(ret))
+				if (rb == fail || fail.Dominates(rb)) && len(fail.Preds) == 1 {
+					atOnce = true
+				}
+			}
+			if atOnce {
+				what += " and the function returns success at once"
+			}
+			callee := "a function value"
+			if cal := call.Call.StaticCallee(); cal != nil {
+				callee = calleeName(cal)
+			} else if call.Call.IsInvoke() {
+				callee = "method " + call.Call.Method.Name()
+			}
+			key := c.P.FuncID(fn) + " :: a failure of " + callee + what + " fails the function"
+			sort.Strings(offending)
+			out = append(out, verdict(len(offending) == 0, rule, key, c.P.InstrPos(iff),
+				"every return reachable from the non-nil edge yields a non-nil error",
+				"after this error was seen to be non-nil the function can still return without a (certainly non-nil) error, at "+strings.Join(offending, ", ")+": the failure is swallowed, overwritten by a later iteration, or replaced by a value that may be nil"))
+		}
+	}
+	c.Stats[rule+".tests"] = n
+	return out
+}
+
+// certainlyError: the returned value is a non-nil error on every path into block at: the tested error itself, a
+// wrap of something, a fresh error, or a phi / variable all of whose sources are.
+func (c *Ctx) certainlyError(v ssa.Value, at *ssa.BasicBlock, tested ssa.Value, depth int) bool {
+	if v == nil || depth > 6 {
+		return false
+	}
+	if v == tested {
+		return true
+	}
+	if c.dyn.definitelyNonNil(v, at, 2) {
+		return true
+	}
+	switch x := v.(type) {
+	case *ssa.Phi:
+		for i, e := range x.Edges {
+			pred := x.Block().Preds[i]
+			if prog.IsNilConst(e) {
+				return false
+			}
+			if !c.certainlyError(e, pred, tested, depth+1) {
+				return false
+			}
+		}
+		return true
+	case *ssa.Call:
+		// a wrap: a call that takes the tested error (or a certainly non-nil one) and returns an error
+		for _, a := range x.Call.Args {
+			if stripMI(a) == tested {
+				return true
+			}
+			if isErrorType(a.Type()) && !prog.IsNilConst(a) && c.certainlyError(a, at, tested, depth+1) {
+				return true
+			}
+			if sl, ok := a.(*ssa.Slice); ok {
+				if al, ok := sl.X.(*ssa.Alloc); ok {
+					for _, r := range *al.Referrers() {
+						if ia, ok := r.(*ssa.IndexAddr); ok {
+							for _, rr := range *ia.Referrers() {
+								if st, ok := rr.(*ssa.Store); ok && stripMI(st.Val) == tested {
+									return true
+								}
+							}
+						}
+					}
+				}
+			}
+		}
+	case *ssa.MakeInterface:
+		return true
+	case *ssa.UnOp:
+		// a result cell (named result / defer): every store into it
+		if al, ok := x.X.(*ssa.Alloc); ok && x.Op == token.MUL {
+			okAll, n := true, 0
+			for _, r := range *al.Referrers() {
+				if st, isSt := r.(*ssa.Store); isSt && st.Addr == ssa.Value(al) && prog.InstrDominates(st, at.Instrs[len(at.Instrs)-1]) {
+					n++
+					if !c.certainlyError(st.Val, st.Block(), tested, depth+1) {
+						okAll = false
+					}
+				}
+			}
+			return okAll && n > 0
+		}
+	}
+	return false
+}
+
+// ---------------------------------------------------------------------------
+// NAMECANON (C17): an explicitly requested project name is used only when it
+// already is in canonical form. In every function of package cli that can
+// answer InvalidProjectNameErr, a return without error is reached only where
+// the comparison of the name with its normalised form has come out equal.
+// ---------------------------------------------------------------------------
+
+func (c *Ctx) NAMECANON(rule string) []report.Obligation {
+	var out []report.Obligation
+	n := 0
+	for _, fn := range c.P.Funcs {
+		if !strings.HasPrefix(c.P.FuncID(fn), "cli.") || len(c.callsTo(fn, "loader.InvalidProjectNameErr")) == 0 {
+			continue
+		}
+		for _, ret := range returnsOf(fn) {
+			if !isNilOrConst(errRet(ret)) {
+				continue
+			}
+			n++
+			canonical := factHolds(ret.Block(), func(cond ssa.Value, val bool) bool {
+				bo, ok := cond.(*ssa.BinOp)
+				if !ok || (bo.Op != token.EQL && bo.Op != token.NEQ) {
+					return false
+				}
+				for _, side := range [][2]ssa.Value{{bo.X, bo.Y}, {bo.Y, bo.X}} {
+					if call, isCall := side[1].(*ssa.Call); isCall {
+						if cal := call.Call.StaticCallee(); cal != nil && c.P.RefName(cal) == "NormalizeProjectName" && len(call.Call.Args) == 1 && sameLoad(call.Call.Args[0], side[0]) {
+							return (bo.Op == token.EQL) == val
+						}
+					}
+				}
+				return false
+			})
+			out = append(out, verdict(canonical, rule, c.P.FuncID(fn)+" :: accepts a name only in canonical form", c.P.InstrPos(ret),
+				"the success return is reached only where name == NormalizeProjectName(name)",
+				"a return without error is reached although the name has not been found equal to its normalised form: a requested name that is not canonical is accepted (or silently dropped) instead of rejected"))
+		}
+	}
+	c.Stats[rule+".returns"] = n
+	if n == 0 {
+		out = append(out, anchorViolation(rule, "a function of package cli that answers InvalidProjectNameErr"))
+	}
+	return out
+}
+
+// ---------------------------------------------------------------------------
+// TRV-11 (C13, C19): the status of a vertex only moves forward (absent ->
+// entered -> visited). Nothing in package graph deletes an entry of a map held
+// by the traversal: a vertex whose entry disappears can be entered again.
+// ---------------------------------------------------------------------------
+
+func (c *Ctx) TRVNODELETE(rule string) []report.Obligation {
+	var out []report.Obligation
+	n := 0
+	for _, fn := range c.P.Funcs {
+		if !strings.HasPrefix(c.P.FuncID(fn), "graph.") {
+			continue
+		}
+		for _, b := range fn.Blocks {
+			for _, in := range b.Instrs {
+				switch x := in.(type) {
+				case *ssa.MapUpdate:
+					if fr, ok := fieldLoad(x.Map); ok && hasMutexField(fr.owner) {
+						n++
+					}
+				case ssa.CallInstruction:
+					if bi, ok := x.Common().Value.(*ssa.Builtin); ok && bi.Name() == "delete" {
+						if fr, ok := fieldLoad(x.Common().Args[0]); ok && hasMutexField(fr.owner) {
+							out = append(out, bad(rule, c.P.FuncID(fn)+" :: deletes an entry of ."+fr.owner.Field(fr.idx).Name(), c.P.InstrPos(in),
+								"an entry of the traversal's bookkeeping is removed: a vertex whose status entry is gone looks never-entered and can be started a second time"))
+						}
+					}
+				}
+			}
+		}
+	}
+	c.Stats[rule+".bookkeeping writes"] = n
+	out = append(out, verdict(n > 0, rule, "inventory :: writes to the traversal's bookkeeping maps", "", fmt.Sprintf("%d map updates, no delete", n), "no write to a bookkeeping map of the traversal found: the rule sees nothing"))
+	return out
+}
+
+func hasMutexField(st *types.Struct) bool {
+	for i := 0; i < st.NumFields(); i++ {
+		if nt, ok := st.Field(i).Type().(*types.Named); ok && nt.Obj().Pkg() != nil && nt.Obj().Pkg().Path() == "sync" {
+			return true
+		}
+	}
+	return false
+}
+
+// sameLoad: the same value, or two loads of the same variable.
+func sameLoad(a, b ssa.Value) bool {
+	if a == b {
+		return true
+	}
+	la, ok1 := a.(*ssa.UnOp)
+	lb, ok2 := b.(*ssa.UnOp)
+	return ok1 && ok2 && la.Op == token.MUL && lb.Op == token.MUL && la.X == lb.X
+}
+
+// ---------------------------------------------------------------------------
+// INC-8 (C20, C06): each entry of an `include` list is loaded with its own
+// environment: the parent environment plus what ITS env files define. Nothing
+// that feeds the Environment of the nested ConfigDetails is carried over from
+// the previous entry: no value merged into it is a loop-carried variable of the
+// loop over the entries (a phi at the loop head).
+// ---------------------------------------------------------------------------
+
+func (c *Ctx) INC8(rule string) []report.Obligation {
+	var out []report.Obligation
+	fn := c.P.Func("loader.ApplyInclude")
+	if fn == nil {
+		return append(out, anchorViolation(rule, "loader.ApplyInclude"))
+	}
+	n := 0
+	scope := []*ssa.Function{fn}
+	for _, cs := range callSites(fn, func(com *ssa.CallCommon) bool { return true }) {
+		if cal := cs.Common().StaticCallee(); cal != nil && c.P.InModule(cal) && cal.Blocks != nil && strings.HasPrefix(c.P.FuncID(cal), "loader.") && cal.Name() != "loadYamlModel" {
+			scope = append(scope, cal)
+		}
+	}
+	for _, sf := range scope {
+		fi := prog.Info(sf)
+		for _, b := range sf.Blocks {
+			for _, in := range b.Instrs {
+				st, ok := in.(*ssa.Store)
+				if !ok {
+					continue
+				}
+				fa, ok := st.Addr.(*ssa.FieldAddr)
+				if !ok || fieldName(fa) != "Environment" {
+					continue
+				}
+				pt, ok := fa.X.Type().Underlying().(*types.Pointer)
+				if !ok {
+					continue
+				}
+				if nt, isN := pt.Elem().(*types.Named); !isN || nt.Obj().Name() != "ConfigDetails" {
+					continue
+				}
+				n++
+				// walk what feeds the stored value: call arguments, receivers, phis
+				var carried []string
+				seen := map[ssa.Value]bool{}
+				var walk func(v ssa.Value, depth int)
+				walk = func(v ssa.Value, depth int) {
+					if v == nil || seen[v] || depth > 8 {
+						return
+					}
+					seen[v] = true
+					switch x := v.(type) {
+					case *ssa.Phi:
+						// a phi at the head of a loop with a back edge: carried from the previous iteration
+						if fi.InLoop(x.Block()) {
+							for i, p := range x.Block().Preds {
+								if x.Block().Dominates(p) {
+									if _, isMap := x.Type().Underlying().(*types.Map); isMap && !prog.IsNilConst(x.Edges[i]) {
+										carried = append(carried, c.P.KeyTerm(x, 1)+" ["+c.P.Pos(x.Pos())+"]")
+									}
+								}
+							}
+						}
+						for _, e := range x.Edges {
+							walk(e, depth+1)
+						}
+					case *ssa.Call:
+						for _, a := range x.Call.Args {
+							walk(a, depth+1)
+						}
+						if x.Call.IsInvoke() {
+							walk(x.Call.Value, depth+1)
+						}
+					case *ssa.Extract:
+						walk(x.Tuple, depth+1)
+					case *ssa.MakeInterface:
+						walk(x.X, depth+1)
+					case *ssa.ChangeType:
+						walk(x.X, depth+1)
+					case *ssa.Convert:
+						walk(x.X, depth+1)
+					}
+				}
+				walk(st.Val, 0)
+				sort.Strings(carried)
+				out = append(out, verdict(len(carried) == 0, rule, "ApplyInclude :: the environment of an included model is built from this entry alone", c.P.InstrPos(st),
+					"no loop-carried mapping feeds the Environment of the nested ConfigDetails", "a mapping that survives from one include entry to the next ("+strings.Join(carried, ", ")+") is merged into the environment of the nested load: an entry without env file runs with the variables the previous entry's env file defined"))
+			}
+		}
+	}
+	if n == 0 {
+		out = append(out, anchorViolation(rule, "the store of ConfigDetails.Environment in loader.ApplyInclude"))
+	}
+	return out
 }
